@@ -199,6 +199,24 @@ def lean_sources():
     return [f for f in fs if os.path.exists(f)]
 
 
+def import_closure(modules):
+    """Lean source files of this project transitively imported by the given modules (names like SoxrModel.Properties.C03)."""
+    seen, todo = {}, list(modules)
+    while todo:
+        m = todo.pop()
+        if m in seen or not (m.startswith("SoxrModel") or m == "Driver"):
+            continue
+        f = os.path.join(LEAN, *m.split(".")) + ".lean"
+        if not os.path.exists(f):
+            continue
+        seen[m] = f
+        for line in open(f):
+            mm = re.match(r"\s*(?:public\s+)?import\s+(\S+)", line)
+            if mm:
+                todo.append(mm.group(1))
+    return sorted(seen.values())
+
+
 def grep_forbidden(files=None):
     hits = []
     for f in files or lean_sources():
@@ -416,7 +434,13 @@ def proof_stage(ctx, modules, audit_module, exes=("soxrmodel",), gens=()):
         errs = [l for l in out.splitlines() if "error" in l.lower()][:20]
         broken.append("lake build failed: " + " | ".join(errs)[:1500])
         ctx.notes.append(out[-3000:])
-    hits = grep_forbidden()
+    scope = [m for m in modules if m.startswith("SoxrModel")]
+    if audit_module:
+        scope.append("SoxrModel.Audit." + audit_module)
+    for e in exes:
+        scope.append({"soxrmodel": "Driver"}.get(e, "SoxrModel.%s.Main" % e.replace("soxr_", "").capitalize()))
+    hits = grep_forbidden(import_closure(scope))
+    ctx.cov["lean_files_in_scope"] = len(import_closure(scope))
     if hits:
         broken.append("forbidden constructs in Lean sources: " + "; ".join(hits[:10]))
     thms, raw = ({}, "")
